@@ -454,4 +454,17 @@ theorem admissible_ticks {w w1 : World P} (h : run w tickMoves = some w1) : admi
             | none => rw [s6] at h; cases h
             | some x6 => rfl
 
+theorem run_tickMoves' (w : World P) (T1 T2 : Nat) (h1 : T1 = w.now + resendUs) (h2 : T2 = T1 + sendUs)
+    (ca1 cb1 ca2 cb2 : P.Conn) (pa1 pb1 pa2 pb2 : List P.Packet)
+    (ha1 : P.call T1 [] w.a.conn .tick = .ok (tickRet ca1 pa1))
+    (hb1 : P.call T1 [] w.b.conn .tick = .ok (tickRet cb1 pb1))
+    (ha2 : P.call T2 [] ca1 .tick = .ok (tickRet ca2 pa2))
+    (hb2 : P.call T2 [] cb1 .tick = .ok (tickRet cb2 pb2)) :
+    run w tickMoves = some
+      { a := (w.a.book (tickRet ca1 pa1) []).book (tickRet ca2 pa2) []
+        b := (w.b.book (tickRet cb1 pb1) []).book (tickRet cb2 pb2) []
+        now := T2 } := by
+  subst h1; subst h2
+  exact run_tickMoves w ca1 cb1 ca2 cb2 pa1 pb1 pa2 pb2 ha1 hb1 ha2 hb2
+
 end Tw.NetSim
